@@ -19,16 +19,48 @@ theorem setValMap_val (sid v τ) : (setValMap sid v τ).val = if τ.sid = sid th
 theorem setSheetMap_sheet (sid sh τ) : (setSheetMap sid sh τ).sheet = if τ.sid = sid then sh else τ.sheet := by
   unfold setSheetMap; split <;> rfl
 
-/-- the elementary changes of (specs, nextSid) -/
-inductive STrans : List Spec × Nat → List Spec × Nat → Prop
-  | refl (p) : STrans p p
-  | del (l n sid) : STrans (l, n) (l.filter (fun τ => τ.sid ≠ sid), n)
-  | setVal (l n sid v) : STrans (l, n) (l.map (setValMap sid v), n)
-  | add (l n m path csv sheet data) (h : canAdd (ioSpecs l m path) sheet = true) :
-      STrans (l, n) (insertSpec l ⟨n, m, path, ftOf l m path csv, sheet, data⟩, n + 1)
+@[simp] theorem setPathMap_sid (m old new τ) : (setPathMap m old new τ).sid = τ.sid := by unfold setPathMap; split <;> rfl
+@[simp] theorem setPathMap_group (m old new τ) : (setPathMap m old new τ).group = τ.group := by unfold setPathMap; split <;> rfl
+@[simp] theorem setPathMap_csv (m old new τ) : (setPathMap m old new τ).csv = τ.csv := by unfold setPathMap; split <;> rfl
+@[simp] theorem setPathMap_sheet (m old new τ) : (setPathMap m old new τ).sheet = τ.sheet := by unfold setPathMap; split <;> rfl
+@[simp] theorem setPathMap_val (m old new τ) : (setPathMap m old new τ).val = τ.val := by unfold setPathMap; split <;> rfl
+
+/-- the list of specs after `update_path`: the specs of the io `(m, old)` leave their place and
+come back, with the new path, at the end -/
+def movePath (l : List Spec) (m : Nat) (old new : String) : List Spec :=
+  l.filter (fun τ => ¬ (τ.group = m ∧ τ.path = old)) ++ (ioSpecs l m old).map (setPathMap m old new)
+
+/-- the elementary changes of (specs, nextSid); `Q m path` is what is known about the io keys that
+are newly claimed (by a creation or by the path setter) -/
+inductive STrans (Q : Nat → String → Prop) : List Spec × Nat → List Spec × Nat → Prop
+  | refl (p) : STrans Q p p
+  | del (l n sid) : STrans Q (l, n) (l.filter (fun τ => τ.sid ≠ sid), n)
+  | setVal (l n sid v) : STrans Q (l, n) (l.map (setValMap sid v), n)
+  | add (l n m path csv sheet data) (h : canAdd (ioSpecs l m path) sheet = true) (hq : Q m path) :
+      STrans Q (l, n) (insertSpec l ⟨n, m, path, ftOf l m path csv, sheet, data⟩, n + 1)
   | setSheet (l n) (σ : Spec) (sh : Option String) (hσ : σ ∈ l) (h : sheetFree l σ sh = true) :
-      STrans (l, n) (l.map (setSheetMap σ.sid sh), n)
-  | trans {a b c} : STrans a b → STrans b c → STrans a c
+      STrans Q (l, n) (l.map (setSheetMap σ.sid sh), n)
+  | setPath (l n) (m : Nat) (old new : String) (hne : new ≠ old) (h : ioSpecs l m new = []) (hq : Q m new) :
+      STrans Q (l, n) (movePath l m old new, n)
+  | trans {a b c} : STrans Q a b → STrans Q b c → STrans Q a c
+
+variable {Q : Nat → String → Prop}
+
+theorem mem_movePath {l : List Spec} {m : Nat} {old new : String} {τ : Spec} :
+    τ ∈ movePath l m old new ↔
+      (τ ∈ l ∧ ¬ (τ.group = m ∧ τ.path = old)) ∨
+      (∃ σ ∈ l, σ.group = m ∧ σ.path = old ∧ τ = { σ with path := new }) := by
+  unfold movePath
+  simp only [List.mem_append, List.mem_filter, decide_eq_true_eq, List.mem_map, mem_ioSpecs]
+  constructor
+  · rintro (h | ⟨σ, ⟨h1, h2, h3⟩, rfl⟩)
+    · exact Or.inl h
+    · refine Or.inr ⟨σ, h1, h2, h3, ?_⟩
+      simp [setPathMap, h2, h3]
+  · rintro (h | ⟨σ, h1, h2, h3, rfl⟩)
+    · exact Or.inl h
+    · refine Or.inr ⟨σ, ⟨h1, h2, h3⟩, ?_⟩
+      simp [setPathMap, h2, h3]
 
 structure SidOK (p : List Spec × Nat) : Prop where
   sidLt : ∀ σ ∈ p.1, σ.sid < p.2
@@ -39,7 +71,7 @@ def Loc (l : List Spec) : Prop :=
   ∀ σ ∈ l, ∀ τ ∈ l, σ.group = τ.group → σ.path = τ.path → σ ≠ τ →
     σ.csv = false ∧ σ.sheet ≠ none ∧ τ.sheet ≠ none ∧ σ.sheet ≠ τ.sheet
 
-theorem sidOK_strans {a b : List Spec × Nat} (t : STrans a b) (h : SidOK a) :
+theorem sidOK_strans {a b : List Spec × Nat} (t : STrans Q a b) (h : SidOK a) :
     SidOK b := by
   induction t with
   | refl p => exact h
@@ -85,6 +117,22 @@ theorem sidOK_strans {a b : List Spec × Nat} (t : STrans a b) (h : SidOK a) :
       obtain ⟨τ1, h1, rfl⟩ := hτ
       have : σ1.sid = τ1.sid := by simpa using he
       rw [h.sidUnique σ1 h0 τ1 h1 this]
+  | setPath l n m old new hne hfree hq =>
+    refine ⟨?_, ?_⟩
+    · intro σ hσ
+      rcases mem_movePath.mp hσ with ⟨h0, _⟩ | ⟨σ0, h0, _, _, rfl⟩
+      · exact h.sidLt σ h0
+      · exact h.sidLt σ0 h0
+    · intro σ hσ τ hτ he
+      rcases mem_movePath.mp hσ with ⟨h0, n0⟩ | ⟨σ0, h0, g0, p0, rfl⟩ <;>
+        rcases mem_movePath.mp hτ with ⟨h1, n1⟩ | ⟨τ0, h1, g1, p1, rfl⟩
+      · exact h.sidUnique σ h0 τ h1 he
+      · have := h.sidUnique σ h0 τ0 h1 he
+        subst this; exact absurd ⟨g1, p1⟩ n0
+      · have := h.sidUnique σ0 h0 τ h1 he
+        subst this; exact absurd ⟨g0, p0⟩ n1
+      · have := h.sidUnique σ0 h0 τ0 h1 he
+        subst this; rfl
   | trans _ _ ih1 ih2 => exact ih2 (ih1 h)
 
 theorem ioSpecs_csv_of_canAdd {l : List Spec} {m : Nat} {path : String} {sheet : Option String}
@@ -105,7 +153,7 @@ theorem ftOf_false_of_mem {l : List Spec} {m : Nat} {path : String} {sheet : Opt
     exact (ioSpecs_csv_of_canAdd hc (by rw [heq]; simp)).1
   · rename_i heq; rw [heq] at hm; simp at hm
 
-theorem loc_strans {a b : List Spec × Nat} (t : STrans a b) (hs : SidOK a) (h : Loc a.1) :
+theorem loc_strans {a b : List Spec × Nat} (t : STrans Q a b) (hs : SidOK a) (h : Loc a.1) :
     Loc b.1 := by
   induction t with
   | refl p => exact h
@@ -167,6 +215,72 @@ theorem loc_strans {a b : List Spec × Nat} (t : STrans a b) (hs : SidOK a) (h :
         exact ⟨k1, k2, hfree.1.1, hfree.2⟩
       · simp only [setSheetMap_csv, setSheetMap_sheet, hs1, hs2, if_false]
         exact ⟨k1, k2, k3, k4⟩
+  | setPath l n m old new hne hfree hq =>
+    intro σ hσ τ hτ hg hp hne'
+    have hnone : ∀ c ∈ l, c.group = m → c.path ≠ new := by
+      intro c hc hgc hpc
+      have : c ∈ ioSpecs l m new := mem_ioSpecs.mpr ⟨hc, hgc, hpc⟩
+      rw [hfree] at this; cases this
+    rcases mem_movePath.mp hσ with ⟨h0, n0⟩ | ⟨σ0, h0, g0, p0, rfl⟩ <;>
+      rcases mem_movePath.mp hτ with ⟨h1, n1⟩ | ⟨τ0, h1, g1, p1, rfl⟩
+    · exact h σ h0 τ h1 hg hp hne'
+    · simp only at hg hp
+      exact absurd hp (hnone σ h0 (hg.trans g1))
+    · simp only at hg hp
+      exact absurd hp.symm (hnone τ h1 (hg.symm.trans g0))
+    · simp only at hg ⊢
+      have hne0 : σ0 ≠ τ0 := fun e => hne' (by rw [e])
+      exact h σ0 h0 τ0 h1 hg (p0.trans p1.symm) hne0
   | trans t1 _ ih1 ih2 => exact ih2 (sidOK_strans t1 hs) (ih1 hs h)
+
+/-- where the io keys after a change come from: they were there, or they were newly claimed -/
+theorem strans_origin {a b : List Spec × Nat} (t : STrans Q a b) :
+    ∀ τ ∈ b.1, (∃ σ ∈ a.1, σ.group = τ.group ∧ σ.path = τ.path) ∨ Q τ.group τ.path := by
+  induction t with
+  | refl p => intro τ hτ; exact Or.inl ⟨τ, hτ, rfl, rfl⟩
+  | del l n sid =>
+    intro τ hτ
+    simp only [List.mem_filter] at hτ
+    exact Or.inl ⟨τ, hτ.1, rfl, rfl⟩
+  | setVal l n sid v =>
+    intro τ hτ
+    simp only [List.mem_map] at hτ
+    obtain ⟨σ, hσ, rfl⟩ := hτ
+    exact Or.inl ⟨σ, hσ, by simp, by simp⟩
+  | add l n m path csv sheet data hc hq =>
+    intro τ hτ
+    simp only [mem_insertSpec] at hτ
+    rcases hτ with rfl | hτ
+    · exact Or.inr hq
+    · exact Or.inl ⟨τ, hτ, rfl, rfl⟩
+  | setSheet l n σ0 sh hσ0 hf =>
+    intro τ hτ
+    simp only [List.mem_map] at hτ
+    obtain ⟨σ, hσ, rfl⟩ := hτ
+    exact Or.inl ⟨σ, hσ, by simp, by simp⟩
+  | setPath l n m old new hne hfree hq =>
+    intro τ hτ
+    rcases mem_movePath.mp hτ with ⟨h0, _⟩ | ⟨σ0, h0, g0, p0, rfl⟩
+    · exact Or.inl ⟨τ, h0, rfl, rfl⟩
+    · exact Or.inr (by simpa [g0] using hq)
+  | trans _ _ ih1 ih2 =>
+    intro τ hτ
+    rcases ih2 τ hτ with ⟨σ, hσ, hg, hp⟩ | hq
+    · rcases ih1 σ hσ with ⟨ρ, hρ, hg', hp'⟩ | hq
+      · exact Or.inl ⟨ρ, hρ, hg'.trans hg, hp'.trans hp⟩
+      · exact Or.inr (by rw [← hg, ← hp]; exact hq)
+    · exact Or.inr hq
+
+/-- the groups (models) of the specs after a change -/
+theorem strans_weaken {Q' : Nat → String → Prop} (hQ : ∀ m p, Q m p → Q' m p) {a b : List Spec × Nat}
+    (t : STrans Q a b) : STrans Q' a b := by
+  induction t with
+  | refl p => exact .refl p
+  | del l n sid => exact .del l n sid
+  | setVal l n sid v => exact .setVal l n sid v
+  | add l n m path csv sheet data hc hq => exact .add l n m path csv sheet data hc (hQ _ _ hq)
+  | setSheet l n σ0 sh hσ0 hf => exact .setSheet l n σ0 sh hσ0 hf
+  | setPath l n m old new hne hfree hq => exact .setPath l n m old new hne hfree (hQ _ _ hq)
+  | trans _ _ ih1 ih2 => exact .trans ih1 ih2
 
 end MxModel.IOSpec
